@@ -41,6 +41,9 @@ func (t *decTr) expr(e ast.Expr) string {
 		if sel, ok := x.Fun.(*ast.SelectorExpr); ok && sel.Sel.Name == "ServerHasCapability" && len(x.Args) == 1 {
 			return "(DHas " + q(t.render(x.Args[0])) + ")"
 		}
+		return "(DAtom " + q(t.render(e)) + ")"
+	case *ast.Ident, *ast.SelectorExpr:
+		return "(DAtom " + q(t.render(e)) + ")"
 	case *ast.BinaryExpr:
 		switch x.Op {
 		case token.EQL:
